@@ -138,13 +138,24 @@ class MapperLab:
         I = self.I
         st = State()
         st.mem[('obj', 'P4')] = table_val('P4')
-        if impl in ('mapped', 'offset'):
-            walker = Struct(MP + 'mapped_page_table::PageTableWalker', [Opaque('frame-mapping')])
-            selfv = Struct(MAPPED, [walker, Ref(('obj', 'P4'))])
-            if impl == 'offset':
-                selfv = Struct(OFFSET, [selfv])
-        else:
-            selfv = Struct(REC, [Ref(('obj', 'P4')), I.sym_value(adt('structures::paging::page_table::PageTableIndex'), 'r')])
+        # the mapper object is what its public constructor builds from (root table, frame mapping / recursive index): the private field
+        # names and their order are whatever the crate chose
+        P_ = {'P': {'k': 'param', 'name': 'P'}}
+        try:
+            if impl in ('mapped', 'offset'):
+                o = I.run(MAPPED + "::<'a, P>::new", [Ref(('obj', 'P4')), Opaque('frame-mapping')], st, P_)
+                selfv = o[0].val if len(o) == 1 and o[0].kind == 'ret' else None
+                if impl == 'offset' and selfv is not None:
+                    selfv = Struct(OFFSET, [selfv])
+            else:
+                o = I.run(REC + "::<'a>::new_unchecked", [Ref(('obj', 'P4')), I.sym_value(adt('structures::paging::page_table::PageTableIndex'), 'r')], st)
+                selfv = o[0].val if len(o) == 1 and o[0].kind == 'ret' else None
+        except Unsupported:
+            selfv = None
+        if selfv is None:
+            raise Unsupported('the %s mapper could not be built through its constructor' % impl)
+        st = o[0].st
+        st.events = []
         st.mem[('arg', 'self')] = selfv
         return st
 
